@@ -11,8 +11,14 @@ from common import ModelError, R, cfl, fl, max_rel_err
 from common import wiring_pre_build as pre_build  # noqa: E402,F401
 
 LEAN_MODULES = ["PyomaVerif.Props.C04", "PyomaVerif.Mutants.C04", "PyomaVerif.Props.WiringRun", "PyomaVerif.Props.C04C13",
-                "PyomaVerif.Props.C04C06", "PyomaVerif.Props.C04Inv", "PyomaVerif.Props.WiringStore", "PyomaVerif.Props.WiringClass", "PyomaVerif.Props.WiringCalls", "PyomaVerif.Props.C04Split"]
+                "PyomaVerif.Props.C04C06", "PyomaVerif.Props.C04Inv", "PyomaVerif.Props.WiringStore", "PyomaVerif.Props.WiringClass", "PyomaVerif.Props.WiringCalls", "PyomaVerif.Props.C04Split",
+                "PyomaVerif.Props.C04Gain"]
 THEOREMS = [
+    # depth round 2: the gain clause over the executable checked model with its own inverse (Props/C04Gain.lean)
+    "PV.C04.C04_gain_line",
+    "PV.C04.C04_checked_lines",
+    "PV.C04.C04_gain_checked",
+    "PV.C04.exGainChecked_ok",
     # depth round: the driver's inverse gaussInv, verified as written, satisfies InvContract (Props/C04Inv.lean)
     "PV.C04.C04_gaussInv_sound",
     "PV.C04.C04_gaussInv_complete",
@@ -87,7 +93,10 @@ RULE = (
     "channel); the hand-over from the user's datasets and ref_ind (op ms_gather on symbolic datasets): MultiSetup_PreGER.data "
     "and both arguments of every SD_est call through the three classes, entry by entry. oracle: one recording cut into 2..4 setups with 1..3 shared references anywhere in the channel lists, "
     "per-setup gains, both estimators, nxseg 64..1024, pov in {0,.25,.5,.75}: merged == mean(g^2) * single-setup "
-    "SD_est([refs; rov...], refs) at 1e-8 of the largest entry, same grid; gain relation on independent recordings. "
+    "SD_est([refs; rov...], refs) at 1e-8 of the largest entry, same grid; gain relation on independent recordings whose "
+    "lengths differ between the setups (reference block == UNWEIGHTED mean of the setups' reference spectra); stream "
+    "SD_PreGER[lengths differ] (values with per-setup Ndat), [exception class] (class name of every raised exception, "
+    "LinAlgError for a duplicated or dead reference channel). "
     "distinct = distinct (method, nxseg, pov, n_ref, roving counts, via) configurations"
 )
 EXTRA_TRUSTED = [
@@ -235,6 +244,20 @@ def ref_cond(calls, n_ref):
     return worst
 
 
+def inv_raises(calls, n_ref):
+    """does np.linalg.inv raise LinAlgError on one of the reference blocks the code hands to it"""
+    for c in calls[0::2]:
+        B = np.asarray(c["S"])[:n_ref, :n_ref]
+        if B.ndim != 3 or B.shape[0] != B.shape[1] or B.size == 0:
+            continue
+        for ff in range(B.shape[2]):
+            try:
+                np.linalg.inv(B[:, :, ff])
+            except np.linalg.LinAlgError:
+                return True
+    return False
+
+
 def compare(ctx, fn, Y, fs, nxseg, method, pov, log, impl, via, key, tol=1e-9, condmax=1e5):
     """impl: ('ok', freq, Sy) or ('raise', exc)"""
     inp, logged = model_input(Y, fs, nxseg, method, pov, log.calls, via)
@@ -256,6 +279,14 @@ def compare(ctx, fn, Y, fs, nxseg, method, pov, log, impl, via, key, tol=1e-9, c
             ok, _ = trace_equal(out["trace"][: len(logged)], logged, fs)
         ctx.corr(fn, ok, small, out.get("raise", "no exception"), repr(impl[1]), key)
         ctx.count("corr_raise")
+        if ok:
+            # depth round 2: the exception CLASS (the model's message starts with the class name numpy/Python raise:
+            # IndexError, ValueError, AxisError, LinAlgError) - `try inv except pinv`, or a guard raising another
+            # class, is a difference
+            mcls = out["raise"].split(":")[0].strip()
+            icls = type(impl[1]).__name__
+            ctx.corr(fn + "[exception class]", mcls == icls, small, mcls, icls, ("exc", mcls) + tuple(key[:1]))
+            ctx.count(f"corr_raise_{icls}")
         return
     _, freq, Sy = impl
     tr_ok, why = trace_equal(out["trace"], logged, fs)
@@ -263,6 +294,12 @@ def compare(ctx, fn, Y, fs, nxseg, method, pov, log, impl, via, key, tol=1e-9, c
         ctx.corr(fn, False, small, "trace: " + why, "logged SD_est calls", key)
         return
     if "raise" in out and out["raise"].startswith("LinAlgError") and Y:
+        # depth round 2: np.linalg.inv ITSELF raises on a block the code inverts (recorded LAPACK behaviour: exact zero
+        # pivot) -> a returned value means the exception was swallowed or the inverse replaced
+        if inv_raises(log.calls, Y[0]["ref"].shape[0]):
+            ctx.corr(fn + "[exception class]", False, small, out["raise"],
+                     "returned a value although np.linalg.inv raises LinAlgError on a reference block", ("exc", "LinAlgError", "swallowed"))
+            return
         # exactly singular in the model, merely ill-conditioned in floating point
         if not ref_cond(log.calls, Y[0]["ref"].shape[0]) < condmax:
             ctx.skipped += 1
@@ -291,8 +328,8 @@ def compare(ctx, fn, Y, fs, nxseg, method, pov, log, impl, via, key, tol=1e-9, c
 
 
 # ----------------------------------------------------------------------------- generators
-def gen_setups(ctx, nxmax, identical_refs=None, nxmin=8):
-    """independent random setups for the correspondence (small sizes)"""
+def gen_setups(ctx, nxmax, identical_refs=None, nxmin=8, varlen=False):
+    """independent random setups for the correspondence (small sizes); varlen: every setup has its own record length"""
     rng = ctx.rng
     g = ctx.nprng()
     n = rng.randint(1, 4)
@@ -302,8 +339,11 @@ def gen_setups(ctx, nxmax, identical_refs=None, nxmin=8):
     same = rng.random() < 0.4 if identical_refs is None else identical_refs
     ref0 = g.standard_normal((n_ref, N))
     Y = []
+    same = same and not varlen
     for _ in range(n):
         nm = rng.randint(1, 3)
+        if varlen:  # Ndat differs between setups (SD_est runs per setup; only the segment length is shared)
+            N = rng.randint(4, 9) * nxseg + rng.randint(0, nxseg - 1)
         ref = ref0.copy() if same else g.standard_normal((n_ref, N))
         mix = g.standard_normal((nm, n_ref))
         mov = mix @ ref + g.standard_normal((nm, N))
@@ -399,6 +439,18 @@ def correspondence(ctx):
             ctx.sample({"n_setup": len(Y), "n_ref": int(Y[0]["ref"].shape[0]), "n_mov": [int(s["mov"].shape[0]) for s in Y],
                         "Ndat": int(Y[0]["ref"].shape[1]), "fs": fs, "nxseg": nxseg, "method": method, "pov": pov,
                         "sd_est_calls": len(log.calls)})
+    # (1b) per-setup record lengths that DIFFER between the setups (depth round 2): values, trace, grid
+    for k in range(ctx.n(10, 120)):
+        Y, fs, nxseg, method, pov = gen_setups(ctx, nxmax, varlen=True)
+        if len(Y) < 2:
+            g = ctx.nprng()
+            N2 = Y[0]["ref"].shape[1] + nxseg + rng.randint(1, nxseg - 1)
+            Y.append({"ref": g.standard_normal((Y[0]["ref"].shape[0], N2)), "mov": g.standard_normal((rng.randint(1, 2), N2))})
+        lens = tuple(int(s["ref"].shape[1]) for s in Y)
+        log, impl = run_fn(Y, fs, nxseg, method, pov, kwstyle=k % 3)
+        key = (method, nxseg, pov, Y[0]["ref"].shape[0], tuple(s["mov"].shape[0] for s in Y), "lens", lens)
+        compare(ctx, "SD_PreGER[lengths differ]", Y, fs, nxseg, method, pov, log, impl, "fn", key)
+        ctx.count("corr_lengths_differ" if len(set(lens)) > 1 else "corr_lengths_equal")
     # (2) through the algorithm classes: run parameters -> call trace
     classes = ["FDD_MS", "EFDD_MS", "pLSCF_MS"]
     for k in range(ctx.n(12, 120)):
@@ -421,7 +473,7 @@ def correspondence(ctx):
     # (3) malformed stream
     for k in range(ctx.n(16, 160)):
         Y, fs, nxseg, method, pov = gen_setups(ctx, min(nxmax, 16))
-        kind = ["empty", "method", "ragged", "nref_more", "nref_less", "dup_ref", "one_setup", "short"][k % 8]
+        kind = ["empty", "method", "ragged", "nref_more", "nref_less", "dup_ref", "one_setup", "short", "zero_ref"][k % 9]
         g = ctx.nprng()
         if kind == "empty":
             Y = []
@@ -445,6 +497,12 @@ def correspondence(ctx):
             for s in Y:
                 s["ref"] = np.vstack([s["ref"][:1], s["ref"][:1]])
             del r
+        elif kind == "zero_ref":
+            # a dead reference channel in one setup: its reference block has a zero row at every line, exactly singular
+            # in floating point too (np.linalg.inv -> LinAlgError, nothing else)
+            i = rng.randrange(len(Y))
+            Y[i]["ref"] = Y[i]["ref"].copy()
+            Y[i]["ref"][rng.randrange(Y[i]["ref"].shape[0])] = 0.0
         elif kind == "one_setup":
             Y = Y[:1]
         elif kind == "short":
@@ -650,8 +708,10 @@ def oracle_gain(ctx, seed, quick):
     method = rng.choice(["per", "cor"])
     pov = rng.choice(POVS)
     N = nxseg * rng.randint(6, 12)
+    # depth round 2: record lengths that differ between the setups (the statement's mean over setups is unweighted)
+    Ns = [N] * n if rng.random() < 0.35 else [nxseg * rng.randint(5, 14) + rng.randint(0, nxseg - 1) for _ in range(n)]
     Y = []
-    for _ in range(n):
+    for N in Ns:
         nm = rng.randint(1, 3)
         ref = g.standard_normal((n_ref, N))
         mov = g.standard_normal((nm, n_ref)) @ ref + 0.5 * g.standard_normal((nm, N))
@@ -671,7 +731,8 @@ def oracle_gain(ctx, seed, quick):
     ctx.oracle_cases += 1
     ctx.count("oracle_gain")
     inp = {"gain_seed": seed, "quick": quick, "n_ref": n_ref, "n_mov": [int(s["mov"].shape[0]) for s in Y], "nxseg": nxseg, "method": method, "pov": pov,
-           "k": k, "c": c, "Ndat": N}
+           "k": k, "c": c, "Ndat": Ns}
+    ctx.count("oracle_gain_lengths_differ" if len(set(Ns)) > 1 else "oracle_gain_lengths_equal")
     mean0, meanc = S0[:n_ref], Sc[:n_ref]
     # (a) mean block: only setup k's term changes; in general it is the mean of the setups' reference spectra
     e0 = max_rel_err(mean0, sum(blocks) / n)
